@@ -9,6 +9,7 @@ import Drivers.TimerD
 import Drivers.XmlD
 import Drivers.LogD
 import Drivers.SchedD
+import Drivers.SessHbD
 import Drivers.MpmcD
 
 def main (args : List String) : IO UInt32 := do
@@ -27,4 +28,5 @@ def main (args : List String) : IO UInt32 := do
   | ["log"] => Drivers.loop stdin ({} : Drivers.LogD.St) Drivers.LogD.step; return 0
   | ["sched"] => Drivers.loop stdin () (fun _ l => ((), Drivers.SchedD.step l)); return 0
   | ["mpmc"] => Drivers.loop stdin Drivers.MpmcD.St.none Drivers.MpmcD.step; return 0
+  | ["sesshb"] => Drivers.loop stdin () (fun _ l => ((), Drivers.SessHbD.stepLine l)); return 0
   | _ => IO.eprintln "usage: driver <stream>"; return 2
